@@ -143,8 +143,12 @@ def _distribute_try(computation_graph: ComputationGraph,
             continue
         footprint = computation_memory(n)
         # Candidates : hints only with enough capacity
-        candidates = [(agents_capa[a], a) for a in hints.host_with(n.name)
-                      if agents_capa[a] > footprint]
+        # host_with gives computations: the candidates are the agents that
+        # already host them.
+        candidates = [(agents_capa[var_hosted[c]], var_hosted[c])
+                      for c in hints.host_with(n.name)
+                      if c in var_hosted
+                      and agents_capa[var_hosted[c]] > footprint]
         # If no hinted agents has enough capacity, fall back to all agents
         if not candidates:
             candidates = [(c, a) for a, c in agents_capa.items()
